@@ -111,7 +111,7 @@ func init() {
 	c14exp := &ConcOpts{
 		Profile: Profile{Prop: "C14", ForceExp: true, NoRef: true, Keys: [2]int{2, 12}},
 		OpW:     c14ops, Tasks: [2]int{2, 5}, OpsPer: [2]int{4, 24}, Prefill: [2]int{0, 6},
-		Executors: []string{"default"}, NoCleanup: true,
+		Executors: []string{"default"}, NoCleanup: true, TinyP: 3, WakeDuel: true,
 		NonTrivial: func(o *ConcOutcome) bool { return o.Switches > 4 && o.Probes["maintenance-configured"] > 0 },
 	}
 	Props["C14"].Engines = append(Props["C14"].Engines, &concEngine{opts: c14exp})
@@ -203,4 +203,21 @@ func init() {
 	}
 	Props["C16"].Engines = append(Props["C16"].Engines, &concEngine{opts: c16})
 	Props["C16"].Conc = c16
+	// C13 / C05 with expiry AND refresh: reloads are in flight (stalled, failing, succeeding) while
+	// deadlines pass and the timer wheel sweeps; afterwards the sweep must be clean and table,
+	// eviction policy and wheel must agree.
+	c13ref := *c13
+	c13ref.Profile = Profile{Prop: "C13", ForceExp: true, ForceRef: true, NoCustomExp: true, Keys: [2]int{1, 5}}
+	c13ref.OpW = zeroExcept(map[string]int{"load": 26, "set": 10, "get": 6, "invalidate": 3, "advance": 18, "cleanup": 6, "refresh": 4, "bulkget": 3})
+	c13ref.AllowStall, c13ref.StallP = true, 4
+	c13ref.Duel = false
+	c13ref.Executors = []string{"default", "queued", "queued"}
+	Props["C13"].Engines = append(Props["C13"].Engines, &concEngine{opts: &c13ref})
+	c05ref := *c05exp
+	c05ref.Profile = Profile{Prop: "C05", ForceExp: true, ForceRef: true, Keys: [2]int{1, 6}}
+	c05ref.OpW = c13ref.OpW
+	c05ref.AllowStall, c05ref.StallP = true, 4
+	c05ref.Duel = false
+	c05ref.Executors = []string{"default", "queued", "queued"}
+	Props["C05"].Engines = append(Props["C05"].Engines, &concEngine{opts: &c05ref})
 }
